@@ -20,6 +20,7 @@ void h_parse_h(void)
    __CPROVER_assume(data != NULL);
    __CPROVER_assume(VERIF_PARSE_CASE(data, len, sd));
    verif_K = nondet_int(); __CPROVER_assume(0 <= verif_K && verif_K < 48);
+   verif_G[0] = 0;   /* ghost initialisation (DFCC makes globals nondeterministic) */
    ret = opus_packet_parse_impl(data, len, sd, w_toc ? &toc : NULL, w_frames ? frames : NULL, size,
                                 w_po ? &po : NULL, w_pko ? &pko : NULL, w_pad ? &padding : NULL, w_pad ? &plen : NULL);
    __CPROVER_assert(ret == -4 || (1 <= ret && ret <= 48), "E2 result is INVALID_PACKET or a frame count 1..48");
